@@ -339,7 +339,7 @@ def run(run, tier):
                                                               'SIR heterogeneous mean-field reduction on regular graphs (chain rule, _partial)',
                                                               'initial conditions built by the *_from_graph wrappers'],
                                'proved_over_hand_written_model': ['individual-based -> homogeneous mean-field (SIS, SIR)', 'pair-based -> homogeneous pairwise (SIS, SIR)',
-                                                                  'heterogeneous pairwise on one degree class -> homogeneous pairwise (SIS, SIR)'],
+                                                                  'heterogeneous pairwise on one degree class -> homogeneous pairwise and -> compact pairwise (SIS, SIR)'],
                                'hand_written_model': 'coq/Model/Rhs2D.v (component rhs2): proved equal to the definitions generated from the source (Props: *_generated_*), both tied by point evaluation',
                                'cited': ['Picard-Lindeloef uniqueness', 'chain rule for psihat\'(theta(t)) and S_k = N c_k theta^k in the _partial theorems'],
                                'translator': 'translate/rhs2v.py (fail-closed); generated file coq/Gen/Rhs.v; translate/rhs2d2v.py (fail-closed); generated file coq/Gen/Rhs2.v'})
